@@ -185,11 +185,8 @@ func targetedScanJobs(r *rand.Rand, engines []string, quick bool) []concJob {
 	for si, sc := range scanScenarios() {
 		bs := sc.boundaries()
 		for v := 0; v < variants; v++ {
-			if quick && (si+v+int(r.Int63()%3))%3 == 0 && v != 0 { // the quick tier runs variant 0 of every scenario and a rotating subset of the others
-				continue
-			}
 			for ei, eng := range engines {
-				if quick && (si+v+ei)%2 == 1 {
+				if quick && (si+v+ei)%2 == 1 { // the quick tier runs every variant of every scenario on one of the two engines
 					continue
 				}
 				procs := []btconc.Proc{{Name: "p1", Op: bt.Op{Ev: "ReadRows", T: concTable, Rs: sc.rs, Now: j.N64(concNow)}}}
